@@ -533,7 +533,7 @@ Definition assign_local_indexed (x : bytes) (vs : list value) (v : value) (st : 
   end.
 
 (* $k[...] / @k[...] when $k / @k currently holds a non-collection: putIndexedOnMap gives the slot a copy of the scalar,
-   which PutIndexed then converts (fix ad8618c0f; before it the stored value was converted in place, which was visible through
+   which PutIndexed then converts (fix 382305ab0; before it the stored value was converted in place, which was visible through
    a local bound to that field/oosvar by reference).  [top_scalar] is kept for the statement of that case. *)
 Definition top_scalar (k : bytes) (m : amap) : bool :=
   match mget k m with
